@@ -83,6 +83,7 @@ class World:
         self.store = FakeStore(self)
         self.events = []                       # global, totally ordered
         self.coll_log = [[] for _ in range(W)]  # per rank: collective kinds in issue order
+        self.coll_pg = [[] for _ in range(W)]   # per rank: the pg of the PGWrapper that issued each of them
         self.write_policy = write_policy       # (rank, path, nth_write_of_rank) -> None | "fail"
         self.nwrites = [0] * W
         self._slots = {}
@@ -123,11 +124,12 @@ class World:
             f = f.f_back
         return "?"
 
-    def collective(self, kind, payload):
+    def collective(self, kind, payload, pg="unknown"):
         r = self.rank()
         site = self._call_site()
         self.sched.point(f"coll:{kind}")
         self.coll_log[r].append(kind)
+        self.coll_pg[r].append(pg)          # the process group object the PGWrapper that issued it was built with
         self.event("collective", coll=kind, site=site)
         gen = self._gen
         kind_site = f"{kind}@{site}"
@@ -164,21 +166,21 @@ class World:
         saved_store, saved_thread, saved_fs = snapmod.get_or_create_store, snapmod.Thread, spmod.FSStoragePlugin
 
         def bcast(self, obj_list, src=0):
-            res = world.collective("broadcast_object_list", list(obj_list))
+            res = world.collective("broadcast_object_list", list(obj_list), pg=getattr(self, "pg", None))
             obj_list[:] = res[src]
 
         def allgather(self, obj_list, obj):
-            res = world.collective("all_gather_object", obj)
+            res = world.collective("all_gather_object", obj, pg=getattr(self, "pg", None))
             for r in range(world.W):
                 obj_list[r] = res[r]
 
         def scatter(self, output_list, input_list, src=0):
-            res = world.collective("scatter_object_list", input_list)
+            res = world.collective("scatter_object_list", input_list, pg=getattr(self, "pg", None))
             output_list[0] = res[src][world.rank()]
 
         PGWrapper.get_rank = lambda self: world.rank()
         PGWrapper.get_world_size = lambda self: world.W
-        PGWrapper.barrier = lambda self: (world.collective("barrier", None), None)[1]
+        PGWrapper.barrier = lambda self: (world.collective("barrier", None, pg=getattr(self, "pg", None)), None)[1]
         PGWrapper.broadcast_object_list = bcast
         PGWrapper.all_gather_object = allgather
         PGWrapper.scatter_object_list = scatter
